@@ -90,9 +90,9 @@ def doAnalyze : List String → String
       | some items =>
         let p : LAParams := ⟨lo, cm, lm, wm, bf, dv == "1"⟩
         let bb : BB := ⟨x0, y0, x1, y1⟩
-        if mode == "page" then showResult (analyze p bb items)
-        else if mode == "fig1" then showResult (analyzeFigure true p bb items)
-        else if mode == "fig0" then showResult (analyzeFigure false p bb items)
+        if mode == "page" then showResult (analyze HEntry.le p bb items)
+        else if mode == "fig1" then showResult (analyzeFigure HEntry.le true p bb items)
+        else if mode == "fig0" then showResult (analyzeFigure HEntry.le false p bb items)
         else "bad-op"
       | none => "bad-items"
     | _, _, _ => "bad-op"
